@@ -723,6 +723,10 @@ fn c13_save48_rec(page: u8, off: usize, mode: SpMode, in_proviso: bool, fail_at:
     cpu(&mut s).regs.set_pc(pc);
     cpu(&mut s).regs.set_iff1(iff1);
     controller(&mut s).frame_clocks = fc;
+    // the saver may be waiting in HALT (its PC then rests on the HALT opcode): the format carries no such
+    // flag, the file must hold that very PC so that the restored machine re-enters the wait
+    let was_halted: bool = kani::any();
+    cpu(&mut s).halted = was_halted;
     set_ram_byte(&mut s, page, off, wv);
     let mut rec = SparseRecorder::new(spec_off48(page, off));
     rec.fail_at = fail_at;
@@ -740,7 +744,7 @@ fn c13_save48_rec(page: u8, off: usize, mode: SpMode, in_proviso: bool, fail_at:
     kani::assert(cpu(&mut s).regs.get_iff1() == iff1, "c13.save48.saver_unchanged.iff1");
     kani::assert(s.peek(wa) == wv, "c13.save48.saver_unchanged.ram");
     kani::assert(controller(&mut s).frame_clocks == fc, "c13.save48.saver_unchanged.frame_clock");
-    kani::assert(!cpu(&mut s).halted && !cpu(&mut s).skip_interrupt, "c13.save48.saver_unchanged.control_state");
+    kani::assert(cpu(&mut s).halted == was_halted && !cpu(&mut s).skip_interrupt, "c13.save48.saver_unchanged.control_state");
     Saved48 { a, pc, wv, rec }
 }
 
@@ -780,6 +784,9 @@ fn c13_rt128_body(bank: u8, paged: u8, off: usize, hi: u8, latch0: u8) {
     controller(&mut s).frame_clocks = fc;
     controller(&mut s).write_7ffd(latch);
     set_ram_byte(&mut s, bank, off, wv);
+    // the saver may be waiting in HALT: the file holds the PC of the HALT opcode (see c13_save48_rec)
+    let was_halted: bool = kani::any();
+    cpu(&mut s).halted = was_halted;
     let mut rec = SparseRecorder::new(spec_off128(bank, paged, off));
     let r = save(&mut s, &mut rec);
     kani::assert(r.is_ok(), "c13.save128.ok");
@@ -792,6 +799,7 @@ fn c13_rt128_body(bank: u8, paged: u8, off: usize, hi: u8, latch0: u8) {
     kani::assert(controller(&mut s).read_7ffd() == latch, "c13.save128.saver_unchanged.latch");
     kani::assert(ch::paging_enabled(controller(&mut s)) == (latch & 0x20 == 0), "c13.save128.saver_unchanged.lock");
     kani::assert(controller(&mut s).frame_clocks == fc, "c13.save128.saver_unchanged.frame_clock");
+    kani::assert(cpu(&mut s).halted == was_halted, "c13.save128.saver_unchanged.halt_state");
 
     let asset = SparseAsset::new(rec.len, rec.head, rec.tail, rec.woff, rec.wval);
     let mut b = receiver(ZXMachine::Sinclair128K, false, latch0);
